@@ -867,6 +867,44 @@ def b_two_yields(xs, n, inc):
         if x > n:
             break
 
+_VP_CONV = []
+def _vp_converts(kind):
+    def register(f):
+        _VP_CONV.append((kind, f))
+        return f
+    return register
+@_vp_converts("a")
+def _vp_conv_a(x):
+    return x + 1
+@_vp_converts("b")
+def _vp_conv_b(x):
+    return x * 2
+def a_list_registry(kind, x):
+    for k, f in _VP_CONV:
+        if k == kind:
+            return f(x)
+    raise KeyError(kind)
+def b_list_registry(kind, x):
+    if "a" == kind:
+        return x + 1
+    if "b" == kind:
+        return x * 2
+    raise KeyError(kind)
+
+def a_methodcaller(xs, p, q):
+    import operator
+    return operator.methodcaller("count", p)(xs), operator.itemgetter(p, q)(xs)
+def b_methodcaller(xs, p, q):
+    return xs.count(p), (xs[p], xs[q])
+
+_VP_OPTIONS = {"fill": 0, "touch": False}
+def _vp_options(**given):
+    return {name: given.get(name, default) for name, default in _VP_OPTIONS.items()}
+def a_options_table(f, fill):
+    return f(**_vp_options(fill=fill))
+def b_options_table(f, fill):
+    return f(fill=fill, touch=False)
+
 def a_neq_order(p, q):
     return [p, q]
 def b_neq_order(p, q):
@@ -881,7 +919,8 @@ EQUAL = ["helper", "raise_in_helper", "ite", "single_exit", "loop_append", "dict
          "gen_return", "counted_while", "join_fstr", "minmax_ite", "gen_display", "int_fold", "dict_call", "clamp_helper",
          "table_items", "star_list", "list_concat", "itemgetter2", "axis_helper", "table_member", "registry",
          "vararg_helper", "bool_flag", "record_property", "comp_after_subst", "search_helper", "bound_method",
-         "isdisjoint", "product_comp", "dict_copy_update", "shapely_functions", "star_through_helpers", "join_after_subst", "operator_table", "reduce_display", "two_yields"]
+         "isdisjoint", "product_comp", "dict_copy_update", "shapely_functions", "star_through_helpers", "join_after_subst", "operator_table", "reduce_display", "two_yields",
+         "list_registry", "methodcaller", "options_table"]
 DIFFERENT = ["neq_filter", "neq_later_mutation", "neq_order", "neq_search_default", "neq_option", "neq_gen_stop", "neq_vararg", "neq_search_helper", "neq_property_guard", "neq_bound_method", "neq_product_order"]
 
 
